@@ -29,9 +29,14 @@ lines = ['## E. Seeded changes (independent sub-agents, `/verif/seeded/<id>-<n>/
 for r in rows:
     lines.append('| %s | %s | %s | %s |' % (r[0], r[1], r[2], r[3].replace('|', '/')))
 lines += ['',
-          'What the misses have in common: they change the *meaning* of a filter or value operation on data shapes no kernel harness reaches (`sort`/`groupby`/`unique`/`format`/`replace`/`indent` in `filters.rs`,',
-          '`Value::eq` for lazy iterables, `get_path`, `Map::as_const`, the `~` fast path in the VM, raw-block and line-comment lexing, `render_debug_info`): Kani does not get through `dyn Object` iteration, `String`',
-          'building or the Unicode tables, and these are not control-flow facts engine M or B could type.  They are the "filters and value shapes outside" lines of the claims in section B.', '']
+          'What is still missed (exit 0): `Value::eq` for a lazy iterable against a sequence (C07-5), `Map::as_const` skipping a non-constant key (C04-3), a keyword argument whose value is none treated as not given',
+          '(C03-7), raw-block / line-comment / `-}}` lexing with custom delimiters (C10-2, C10-3, C10-5) and `render_debug_info` (C14-2, C14-6): Kani does not get through `dyn Object` iteration, the `fmt` machinery or',
+          'the tokenizer loops inside the caps, and these are not control-flow or data-flow facts that the MIR checks of engine M express without naming the very expression that was changed.  Inconclusive (exit 2): the',
+          'three harnesses that time out on the changed code and C20-7, where the changed `LoaderStore::clear` leaves the grammar engine L translates.',
+          'Rounds 6 and 7 (independent sub-agents, 24 changes) were first run against the checks as they stood - 9 of 24 caught - and the checks were then extended where a missed change pointed at a fact that a',
+          'solver query over the MIR or the bytecode can state in general terms (captures, safe-string sources, comparison arms, flag discipline of the notifier, comparators of the ordering filters, pooled buffers,',
+          'state ids, literal radix ...); each extension is described in A.2 / A.4 with the seed it now catches, and was also run on a behaviour-preserving refactoring where one was easy to write (e.g. the capture mode',
+          'held in a local first; `clear()` only on the recycle side of the pool).', '']
 s = open('/verif/DESIGN.md').read()
 i = s.index('## E. Seeded changes')
 j = s.index('## F. Tiers')
